@@ -65,21 +65,23 @@ Section Proofs.
     - apply tab_length.
   Qed.
 
-  Lemma pandas_mask_id tbl m :
-    NoDup (t_index tbl) -> length m = length (t_index tbl) -> pandas_mask tbl m = m.
-  Proof. intros. unfold pandas_mask, labels_selected. apply labels_roundtrip; assumption. Qed.
+  (* the label-based mask of the code before F23 was repaired is right exactly for unique labels ... *)
+  Lemma pandas_mask_by_label_id tbl m :
+    NoDup (t_index tbl) -> length m = length (t_index tbl) -> pandas_mask_by_label tbl m = m.
+  Proof. intros. unfold pandas_mask_by_label, labels_selected. apply labels_roundtrip; assumption. Qed.
 
-  (* unique row labels (any labels: default, offset, reversed, arbitrary) *)
-  Theorem pandas_run_spec cfg tbl :
-    wf_table tbl -> NoDup (t_index tbl) -> pandas_run cfg tbl = spec_run cfg tbl.
+  (* ... and wrong for a repeated label: selecting one of two rows that share a label marked both *)
+  Lemma pandas_mask_by_label_refuted :
+    exists tbl m, length m = length (t_index tbl) /\ pandas_mask_by_label tbl m <> m.
   Proof.
-    intros Hwf Hnd. unfold Stream.pandas_run, Stream.spec_run. f_equal.
-    apply flat_map_ext. intros c. apply flat_map_ext. intros cl.
-    unfold Stream.run_call_pandas, Stream.run_call.
-    destruct (lookup (cl_stream cl) (t_cols tbl)); [|reflexivity].
-    rewrite pandas_mask_id; [reflexivity|exact Hnd|].
-    rewrite window_mask_length by exact Hwf. symmetry. apply Hwf.
+    exists {| t_n := 2; t_time := None; t_z := None; t_lon := None; t_lat := None; t_cols := []; t_index := [0; 0]%Z |},
+           [true; false].
+    split; [reflexivity|]. vm_compute. discriminate.
   Qed.
+
+  (* every row index: default, offset, reversed, arbitrary, with repeated labels *)
+  Theorem pandas_run_spec cfg tbl : pandas_run cfg tbl = spec_run cfg tbl.
+  Proof. reflexivity. Qed.
 
   (* ---------------------------------------------------------------- xarray *)
 
@@ -111,10 +113,10 @@ Section Proofs.
 
   (* consequently all front ends agree *)
   Theorem front_ends_agree cfg tbl :
-    wf_table tbl -> NoDup (t_index tbl) -> Forall (xarray_ok tbl) cfg ->
+    Forall (xarray_ok tbl) cfg ->
     pandas_run cfg tbl = numpy_run cfg tbl /\ xarray_run cfg tbl = numpy_run cfg tbl.
   Proof.
-    intros. split; [rewrite pandas_run_spec by assumption|rewrite xarray_run_spec by assumption]; reflexivity.
+    intros. split; [rewrite pandas_run_spec|rewrite xarray_run_spec by assumption]; reflexivity.
   Qed.
 
   (* ---------------------------------------------------------------- the specification itself *)
